@@ -1177,12 +1177,19 @@ class Interp(object):
             lm_new = self.model.lookup_method(cv.module, cv.node, '__new__')
             if lm_new is not None:
                 # the class builds its instances itself (defaults for a namedtuple subclass, a singleton, ...)
-                made = self.call_func(Func(lm_new[0], lm_new[2]), [cv] + list(args), dict(kwargs))
-                if isinstance(made, Obj) and made.cls is cv:
+                try:
+                    made = self.call_func(Func(lm_new[0], lm_new[2]), [cv] + list(args), dict(kwargs))
+                except Unmodelled:
+                    made = None         # a __new__ the interpreter cannot follow: the plain object, as before
+                if made is None:
+                    pass
+                elif isinstance(made, Obj) and made.cls is cv:
                     lm_i = self.model.lookup_method(cv.module, cv.node, '__init__')
                     if lm_i:
                         self.call_func(Func(lm_i[0], lm_i[2]), [made] + list(args), dict(kwargs))
-                return made
+                    return made
+                else:
+                    return made
         obj = Obj(cv, {})
         rec = self._record_class(cv)
         if rec:
@@ -2202,8 +2209,8 @@ class Interp(object):
             return absmodels.call_method(self, base, e.func.attr, args, kwargs, src(e))
         if isinstance(e.func, ast.Name) and e.func.id == 'super' and fr.lookup('super') is None:
             args, kwargs = self._args(e, fr)
-            if len(args) == 2 and isinstance(args[0], ClassV) and isinstance(args[1], Obj):
-                return SuperV(args[1], args[0])
+            if len(args) == 2 and isinstance(args[0], ClassV) and isinstance(args[1], (Obj, ClassV)):
+                return SuperV(args[1], args[0])     # super(C, self) / super(C, cls) inside __new__ or a classmethod
             if not args:
                 # zero-argument form: the class that lexically owns the running method, and its first parameter
                 f_ = fr
